@@ -168,5 +168,23 @@ func allProps() []*propInfo {
 				{ID: "C15.3", Doc: "[tab] registry", Run: ruleC15_3},
 			},
 		},
+		{
+			ID: "C09",
+			Explanation: "Static necessary conditions of 'all-or-nothing under storage failure': " +
+				"C09.1 (K5 error flow) in every function of package actions and of the services files that implement the listed operations, the error of every storage/transaction call is propagated: on every path where it is non-nil the function returns a non-nil error, unless the path passed an enumerated classification test on that error (not-found, duplicate-key, errors.Is/As, retry predicate); " +
+				"C09.2 DoTx marks success only when inner returned nil, commits iff success and rolls back otherwise, and a Commit/Rollback error reaches the result unless the result already is a context error; pruneService.runOnce commits only on success and rolls back on every other exit; " +
+				"C09.3 (K4) every wake-up call in package actions sits in an ent.CommitFunc registered through tx.OnCommit and is dominated by the nil edge of the wrapped Commit; outside actions only the LISTEN/NOTIFY receiver may wake; " +
+				"C09.4 a Publish batch shares one transaction, a stream request's acks and nacks share one, no unary handler opens a transaction inside a loop, a mutation outside a transaction is the single statement of its operation; " +
+				"C09.5 no unary handler returns an error on a path where its transaction already committed. " +
+				"NOT decided: driver/database atomicity, cancellation timing, 'retry has the same effect', the pull's first (expiry-refresh) transaction committing before a later one fails.",
+			Assumptions: []string{k1Assumption, "the SQL driver makes a transaction atomic; Rollback undoes every statement of it"},
+			Rules: []ruleFn{
+				{ID: "C09.1", Doc: "[K5] no storage error is dropped inside a transaction", Run: ruleC09_1},
+				{ID: "C09.2", Doc: "[dom] transaction helpers commit iff success", Run: ruleC09_2},
+				{ID: "C09.3", Doc: "[K4][who] wake-ups only after a successful commit", Run: ruleC09_3},
+				{ID: "C09.4", Doc: "[dom] one operation, one transaction", Run: ruleC09_4},
+				{ID: "C09.5", Doc: "[dom] no error after commit in unary handlers", Run: ruleC09_5},
+			},
+		},
 	}
 }
